@@ -31,5 +31,21 @@ impl Visitor<'_> for CacheControlCalculate<'_> {
         {
             *self.cache_control = self.cache_control.merge(&registry_field.cache_control);
         }
+
+        // A field selected on an interface is resolved by whichever object type implements
+        // it at run time, so the hints of every possible object type (and of its field of
+        // that name) apply.
+        if let Some(MetaType::Interface { possible_types, .. }) = ctx.parent_type() {
+            for ty in possible_types {
+                if let Some(object @ MetaType::Object { cache_control, .. }) =
+                    ctx.registry.types.get(ty.as_str())
+                {
+                    *self.cache_control = self.cache_control.merge(cache_control);
+                    if let Some(object_field) = object.field_by_name(&field.node.name.node) {
+                        *self.cache_control = self.cache_control.merge(&object_field.cache_control);
+                    }
+                }
+            }
+        }
     }
 }
